@@ -1304,8 +1304,125 @@ def rule_value_nullability(run, prog):
     run.require(n >= 15, f"only {n} string uses of token text found (floor 15)")
 
 
+# =========================================================================== R-5.9
+def rule_local_list_index(run, prog):
+    run.rule("R-5.9", "indexing of local lists: a list created empty in a function and indexed by position (L[-1], L[0], "
+             "L[k]) is dominated by evidence that it is long enough: a test on its truthiness / length on the path, or an "
+             "early exit when it is empty", floor=6)
+    n = 0
+    for fn in prog.fns:
+        rel = fn.mod.rel
+        if not (rel.startswith("rules/") or rel in ("context.py", "registry.py")):
+            continue
+        locals_ = {t.id for x in walk_fn(fn.node) if isinstance(x, ast.Assign) and isinstance(x.value, ast.List) and not x.value.elts
+                   for t in x.targets if isinstance(t, ast.Name)}
+        if not locals_:
+            continue
+        for x in walk_fn(fn.node):
+            if isinstance(x, ast.Subscript) and isinstance(x.ctx, ast.Load) and isinstance(x.value, ast.Name) and x.value.id in locals_ \
+                    and not isinstance(x.slice, ast.Slice):
+                L = x.value.id
+                if trivially_dead_(x):
+                    continue
+                n += 1
+                ev = _length_evidence(fn, L, x)
+                run.ob("R-5.9", f"{fn.key}::index[{text(x, 30)}]", ev is not None,
+                       f"`{text(x)}`: the list `{L}` starts empty and nothing on the path shows that it has been filled: "
+                       f"IndexError traceback on input for which no element was collected", x, evidence=ev)
+    run.require(n >= 6, f"only {n} positional accesses to local lists found (floor 6)")
+
+
+def trivially_dead_(node):
+    from ..facts import trivially_dead
+    return trivially_dead(node)
+
+
+def _length_evidence(fn, L: str, at) -> Optional[str]:
+    from ..facts import disjuncts
+
+    def nonempty_when_true(c) -> bool:
+        t = text(c)
+        if t == L:
+            return True
+        if isinstance(c, ast.Compare) and len(c.ops) == 1 and text(c.left) == f"len({L})":
+            op, r = c.ops[0], c.comparators[0]
+            if isinstance(r, ast.Constant) and isinstance(r.value, int):
+                if isinstance(op, ast.Gt) and r.value >= 0:
+                    return True
+                if isinstance(op, ast.GtE) and r.value >= 1:
+                    return True
+                if isinstance(op, ast.NotEq) and r.value == 0:
+                    return True
+                if isinstance(op, ast.Eq) and r.value >= 1:
+                    return True
+        if isinstance(c, ast.Compare) and len(c.ops) == 1 and text(c.left) == L and isinstance(c.ops[0], ast.NotEq) \
+                and isinstance(c.comparators[0], ast.List) and not c.comparators[0].elts:
+            return True
+        if isinstance(c, ast.BoolOp) and isinstance(c.op, ast.And):
+            return any(nonempty_when_true(v) for v in c.values)
+        return False
+
+    def nonempty_when_false(c) -> bool:
+        if isinstance(c, ast.UnaryOp) and isinstance(c.op, ast.Not):
+            return nonempty_when_true(c.operand)
+        if isinstance(c, ast.Compare) and len(c.ops) == 1 and text(c.left) == f"len({L})":
+            op, r = c.ops[0], c.comparators[0]
+            if isinstance(r, ast.Constant) and isinstance(r.value, int):
+                if isinstance(op, ast.Eq) and r.value == 0:
+                    return True
+                if isinstance(op, ast.Lt) and r.value >= 1:
+                    return True
+                if isinstance(op, ast.LtE) and r.value >= 0:
+                    return True
+        if isinstance(c, ast.Compare) and len(c.ops) == 1 and text(c.left) == L and isinstance(c.ops[0], ast.Eq) \
+                and isinstance(c.comparators[0], ast.List) and not c.comparators[0].elts:
+            return True
+        if isinstance(c, ast.BoolOp) and isinstance(c.op, ast.Or):
+            return any(nonempty_when_false(v) for v in c.values)
+        return False
+
+    # earlier operands / enclosing ifs
+    cur = at
+    for a in ancestors(at):
+        if isinstance(a, ast.BoolOp):
+            pos = next((i for i, v in enumerate(a.values) if any(y is cur for y in ast.walk(v))), None)
+            if pos is not None:
+                for v in a.values[:pos]:
+                    if (nonempty_when_true(v) if isinstance(a.op, ast.And) else nonempty_when_false(v)):
+                        return f"earlier operand `{text(v, 40)}`"
+        if isinstance(a, (ast.If, ast.While)) and not any(y is cur for y in ast.walk(a.test)):
+            in_body = any(any(y is at for y in ast.walk(s_)) for s_ in a.body)
+            if in_body and any(nonempty_when_true(c) for c in conjuncts(a.test)):
+                return f"guard `{text(a.test, 40)}`"
+            if not in_body and isinstance(a, ast.If) and any(nonempty_when_false(d) for d in disjuncts(a.test)):
+                return f"else branch of `{text(a.test, 40)}`"
+        if isinstance(a, (ast.FunctionDef, ast.AsyncFunctionDef)):
+            break
+        cur = a
+    # early exits earlier in an enclosing block
+    st = at
+    while not isinstance(st, ast.stmt):
+        st = parent(st)
+    cur = st
+    for a in ancestors(st):
+        for field in ("body", "orelse", "finalbody"):
+            blk = getattr(a, field, None)
+            if isinstance(blk, list) and any(s_ is cur for s_ in blk):
+                for s_ in blk:
+                    if s_ is cur:
+                        break
+                    if isinstance(s_, ast.If) and not s_.orelse and s_.body and isinstance(s_.body[-1], (ast.Return, ast.Raise, ast.Continue, ast.Break)):
+                        if any(nonempty_when_false(d) for d in disjuncts(s_.test)):
+                            return f"early exit on `{text(s_.test, 40)}`"
+        if isinstance(a, (ast.FunctionDef, ast.AsyncFunctionDef)):
+            break
+        cur = a
+    return None
+
+
 # ===========================================================================
 def check(run, prog):
+    rule_local_list_index(run, prog)
     rule_value_nullability(run, prog)
     rule_ret(run, prog)
     rule_ret_positions(run, prog)
